@@ -79,12 +79,33 @@ class _Canon(ast.NodeTransformer):
             return ast.copy_location(new, n)
         return n
 
+    def visit_Call(self, n):
+        self.generic_visit(n)
+        if any(isinstance(a, ast.Starred) and isinstance(a.value, (ast.Tuple, ast.List)) for a in n.args):
+            args = []
+            for a in n.args:
+                if isinstance(a, ast.Starred) and isinstance(a.value, (ast.Tuple, ast.List)):
+                    args.extend(a.value.elts)
+                else:
+                    args.append(a)
+            n.args = args
+            self.stats['canon_unstar'] = self.stats.get('canon_unstar', 0) + 1
+        return n
+
     def visit_BinOp(self, n):
         self.generic_visit(n)
         if isinstance(n.op, (ast.Add, ast.Mult)) and isinstance(n.left, ast.Constant) and type(n.left.value) is int \
                 and not isinstance(n.right, ast.Constant):
             n.left, n.right = n.right, n.left
             self.stats['canon_commute'] = self.stats.get('canon_commute', 0) + 1
+        return n
+
+    def visit_IfExp(self, n):
+        self.generic_visit(n)
+        # a conditional expression whose test is a literal (left behind by inlining a helper called with a constant flag)
+        if isinstance(n.test, ast.Constant):
+            self.stats['canon_const_ifexp'] = self.stats.get('canon_const_ifexp', 0) + 1
+            return n.body if n.test.value else n.orelse
         return n
 
     def visit_If(self, n):
@@ -608,8 +629,9 @@ class _ReplaceNode(ast.NodeTransformer):
 def _bind(helper, call, is_method):
     """[(param, arg expr)] or None"""
     params = [a.arg for a in helper.args.args]
-    if helper.args.vararg or helper.args.kwarg or helper.args.kwonlyargs or helper.args.posonlyargs:
+    if helper.args.kwarg or helper.args.kwonlyargs or helper.args.posonlyargs:
         return None
+    vararg = helper.args.vararg.arg if helper.args.vararg else None
     if any(isinstance(a, ast.Starred) for a in call.args) or any(k.arg is None for k in call.keywords):
         return None
     if is_method:
@@ -622,8 +644,11 @@ def _bind(helper, call, is_method):
     for p, d in zip(all_params[len(all_params) - len(defaults):], defaults):
         dmap[p] = d
     bound = {}
+    extra = []
     if len(call.args) > len(params):
-        return None
+        if vararg is None:
+            return None
+        extra = list(call.args[len(params):])
     for p, a in zip(params, call.args):
         bound[p] = a
     for k in call.keywords:
@@ -638,6 +663,9 @@ def _bind(helper, call, is_method):
             out.append((p, dmap[p]))
         else:
             return None
+    if vararg is not None:
+        t = ast.Tuple(elts=extra, ctx=ast.Load())
+        out.append((vararg, t))
     return out
 
 
@@ -650,6 +678,8 @@ def _locals_of(helper):
             names.add(x.name)
     for a in helper.args.args:
         names.add(a.arg)
+    if helper.args.vararg:
+        names.add(helper.args.vararg.arg)
     return names
 
 
@@ -1088,11 +1118,102 @@ def module_functions(tree):
     return out
 
 
-def normalize_module(modname, tree, stats):
+def _const_tree(v):
+    if isinstance(v, ast.Constant) and isinstance(v.value, str):
+        return True
+    if isinstance(v, ast.Tuple) and v.elts:
+        return all(_const_tree(x) or (isinstance(x, ast.Constant) and isinstance(x.value, (int, str))) for x in v.elts)
+    return False
+
+
+def propagate_module_constants(tree, stats):
+    """N6: a module-level name bound exactly once to a string or to a tuple of strings / tuples (immutable) and never
+    rebound is replaced by its value inside functions - a template or a table moved to module level reads like the
+    literal it stands for"""
+    binds = {}
+    counts = {}
+    for st in tree.body:
+        if isinstance(st, ast.Assign) and len(st.targets) == 1 and isinstance(st.targets[0], ast.Name):
+            counts[st.targets[0].id] = counts.get(st.targets[0].id, 0) + 1
+            if _const_tree(st.value):
+                binds[st.targets[0].id] = st.value
+    for n in ast.walk(tree):
+        if isinstance(n, ast.Global):
+            for nm in n.names:
+                binds.pop(nm, None)
+        if isinstance(n, ast.Name) and isinstance(n.ctx, (ast.Store, ast.Del)) and n.id in binds:
+            # stores other than the one module-level binding
+            pass
+    for nm in list(binds):
+        if counts.get(nm) != 1:
+            del binds[nm]
+    if not binds:
+        return
+    # names rebound inside any function are left alone
+    for f in ast.walk(tree):
+        if isinstance(f, (ast.FunctionDef, ast.Lambda)):
+            for x in ast.walk(f):
+                if isinstance(x, ast.Name) and isinstance(x.ctx, (ast.Store, ast.Del)) and x.id in binds:
+                    del binds[x.id]
+                if isinstance(x, ast.arg) and x.arg in binds:
+                    del binds[x.arg]
+    if not binds:
+        return
+    n_sub = [0]
+
+    class T(ast.NodeTransformer):
+        def visit_Name(self, n):
+            if isinstance(n.ctx, ast.Load) and n.id in binds:
+                new = clone(binds[n.id])
+                for x in ast.walk(new):
+                    if hasattr(x, 'lineno'):
+                        ast.copy_location(x, n)
+                n_sub[0] += 1
+                return new
+            return n
+    for st in tree.body:
+        if isinstance(st, ast.FunctionDef):
+            T().visit(st)
+        elif isinstance(st, ast.ClassDef):
+            for c in st.body:
+                if isinstance(c, ast.FunctionDef):
+                    T().visit(c)
+    if n_sub[0]:
+        stats['module_constants_inlined'] = stats.get('module_constants_inlined', 0) + n_sub[0]
+        ast.fix_missing_locations(tree)
+
+
+_TEXT_CACHE = {}
+
+
+def _used_elsewhere(pkg_dir, modname, name):
+    """does another module of the package mention `name` (a helper called through inheritance from another file)?"""
+    if not pkg_dir:
+        return False
+    key = pkg_dir
+    if key not in _TEXT_CACHE:
+        texts = {}
+        for root, dirs, files in os.walk(pkg_dir):
+            if os.path.basename(root) in ('test', 'tests', 'map'):
+                dirs[:] = []
+                continue
+            for f in files:
+                if f.endswith('.py'):
+                    try:
+                        with open(os.path.join(root, f), encoding='utf-8', errors='replace') as fd:
+                            texts[os.path.relpath(os.path.join(root, f), pkg_dir)[:-3].replace(os.sep, '.')] = fd.read()
+                    except OSError:
+                        pass
+        _TEXT_CACHE[key] = texts
+    return any(name in t for m, t in _TEXT_CACHE[key].items() if m != modname)
+
+
+def normalize_module(modname, tree, stats, pkg_dir=None):
     funcs = module_functions(tree)
     base = baseline_funcs().get(modname)
     # N1 first: the other passes then see canonical tests
     _Canon(stats).visit(tree)
+    propagate_module_constants(tree, stats)
     if base is not None:
         new = [(q, f, m) for q, f, m in funcs if q not in base]
         if new:
@@ -1115,7 +1236,7 @@ def normalize_module(modname, tree, stats):
                         elif isinstance(x, ast.Name) and x.id == nm:
                             refs += 1
                     inside = sum(1 for x in ast.walk(hf) if (isinstance(x, ast.Attribute) and x.attr == nm) or (isinstance(x, ast.Name) and x.id == nm))
-                    if refs - inside == 0:
+                    if refs - inside == 0 and not _used_elsewhere(pkg_dir, modname, nm):
                         for owner in [tree] + [c for c in tree.body if isinstance(c, ast.ClassDef)]:
                             if hf in owner.body:
                                 owner.body.remove(hf)
